@@ -54,22 +54,39 @@ def plainPath (p : Str) : Bool :=
   segs.all (fun s => s != ['.'] && s != ['.', '.'])
   && (segs.drop 1).dropLast.all (fun s => !s.isEmpty)
 
-/-- `urllib.parse.urljoin(base, ref)`; `none` = outside the modelled grammar -/
+/-- the scheme is written in lower case (`urljoin` re-assembles the result with the LOWER-CASED
+    scheme, so an upper-case scheme is outside the modelled grammar) -/
+def lowerScheme (sch : Str) : Bool := sch.all fun c => !c.isUpper
+
+/-- the reference starts with something `urlsplit` takes for a scheme (`x:y`, `mailto:a`, `c:d/e`):
+    Python then treats it as an absolute URL of that scheme — outside the modelled grammar unless it
+    is `scheme://…` -/
+def schemeLike (ref : Str) : Bool :=
+  ref.contains ':' && (match ref.takeWhile (· != ':') with
+    | [] => false
+    | c :: r => c.isAlpha && r.all isSchemeChar)
+
+/-- `urllib.parse.urljoin(base, ref)`; `none` = outside the modelled grammar (then nothing is
+    claimed or judged about the URL) -/
 def urljoin (base ref : Str) : Option Str :=
   match schemeOf base with
   | none => none
   | some (sch, _) =>
-    if ref.isEmpty then some base
-    else if (schemeOf ref).isSome then some ref
-    else match ref with
-      | '/' :: '/' :: _ => some (sch ++ ':' :: ref)
-      | '/' :: _ => if plainPath ref then some (sch ++ "://".toList ++ netloc base ++ ref) else none
-      | '?' :: _ => none
-      | '#' :: _ => none
-      | _ =>
-        let dir := dirOf (pathOf base)
-        let dir := if dir.isEmpty then ['/'] else dir
-        if plainPath (dir ++ ref) then some (sch ++ "://".toList ++ netloc base ++ dir ++ ref) else none
+    if !lowerScheme sch then none
+    else if ref.isEmpty then some base
+    else match schemeOf ref with
+      | some (rs, _) => if lowerScheme rs then some ref else none
+      | none =>
+        if schemeLike ref then none
+        else match ref with
+        | '/' :: '/' :: _ => some (sch ++ ':' :: ref)
+        | '/' :: _ => if plainPath ref then some (sch ++ "://".toList ++ netloc base ++ ref) else none
+        | '?' :: _ => none
+        | '#' :: _ => none
+        | _ =>
+          let dir := dirOf (pathOf base)
+          let dir := if dir.isEmpty then ['/'] else dir
+          if plainPath (dir ++ ref) then some (sch ++ "://".toList ++ netloc base ++ dir ++ ref) else none
 
 /-! ### declarations -/
 
